@@ -39,7 +39,7 @@ ASSUMPTIONS = [
     "which of several same-type instances supplied by the same block is returned is unspecified (any of them is accepted)",
     "equality, not identity, of the returned instance is judged; ctx.updated outside any scope is not generated",
 ]
-MINIMUMS = {"monitor:lookup": 50000, "monitor:lookup-default": 50000, "shadowing_lookups": 3000, "explicit_default_wins": 3000, "missing_state": 3000, "disposable_supplied": 300, "programs_with_prepared_scopes": 300}
+MINIMUMS = {"monitor:lookup": 50000, "monitor:lookup-default": 50000, "shadowing_lookups": 3000, "explicit_default_wins": 3000, "explicit_default_of_another_class_wins": 500, "missing_state": 3000, "disposable_supplied": 300, "programs_with_prepared_scopes": 300}
 JOBS = {"quick": 4, "thorough": 16}
 OPTIMIZED_SHARDS = {"quick": 2, "thorough": 16}  # the same cases once more under `python -O`
 LEVEL_TEXT = (
@@ -126,7 +126,7 @@ def judge(R: Recorder, prog: list[dict[str, Any]], W: World, status: str, err: A
     exp = expected(prog)
     case = {"program": prog}
     nontrivial = False
-    stats = {"shadow": 0, "expdef": 0, "missing": 0, "disp": 0}
+    stats = {"shadow": 0, "expdef": 0, "missing": 0, "disp": 0, "foreign": 0}
     if status != "ok":
         R.case(case, nontrivial=False)
         R.monitor("lookup", False, where={"kind": "program-failed", "error": type(err).__name__}, detail=f"program ended {status}: {err!r}", case=case)
@@ -160,21 +160,22 @@ def judge(R: Recorder, prog: list[dict[str, Any]], W: World, status: str, err: A
             R.monitor("lookup", ok, where={"kind": "wrong-lookup", "expected": wkind, "observed": gkind, "type": "defaultable" if tname in family.DEFAULTABLE else "required"},
                       detail=f"probe {pid}: ctx.state({tname}) -> {got!r}, reference {want!r}; lookup order {obs['order']}", case=case)
             # ---- lookup with explicit default
-            gotd, duid = obs["with_default"][tname]
+            gotd, duid, dname = obs["with_default"][tname]
             if want[0] == "val":
                 okd = gotd[0] == "val" and gotd[1][0] == tname and gotd[1][1] in want[1]
                 wkind = "supplier"
                 depth = sum(1 for f in range(1) if True)
             elif e["inside"]:
-                okd = gotd == ("val", (tname, duid))
-                wkind = "explicit-default"
+                okd = gotd == ("val", (dname, duid))
+                wkind = "explicit-default" if dname == tname else "explicit-default-of-another-class"
                 stats["expdef"] += 1
+                stats["foreign"] += dname != tname
             else:
                 okd = gotd == ("exc", "MissingContext")
                 wkind = "MissingContext"
             gk = gotd[1] if gotd[0] == "exc" else ("constructed-or-cached" if gotd[0] == "val" and gotd[1][1] == 0 else "other")
             R.monitor("lookup-default", okd, where={"kind": "wrong-lookup-with-default", "expected": wkind, "observed": gk},
-                      detail=f"probe {pid}: ctx.state({tname}, default=<uid {duid}>) -> {gotd!r}, reference {want!r}; lookup order {obs['order']}", case=case)
+                      detail=f"probe {pid}: ctx.state({tname}, default=<{dname} uid {duid}>) -> {gotd!r}, reference {want!r}; lookup order {obs['order']}", case=case)
     # shadowing statistic: a type supplied by >= 2 nested blocks on some path
 
     def walk(steps: list[dict[str, Any]], seen: dict[str, int]) -> None:
@@ -193,6 +194,7 @@ def judge(R: Recorder, prog: list[dict[str, Any]], W: World, status: str, err: A
     R.case(shape_key(prog), nontrivial=nontrivial)
     R.count("shadowing_lookups", stats["shadow"])
     R.count("explicit_default_wins", stats["expdef"])
+    R.count("explicit_default_of_another_class_wins", stats["foreign"])
     R.count("missing_state", stats["missing"])
     R.count("disposable_supplied", stats["disp"])
     R.count("probes", len(exp))
